@@ -3,71 +3,84 @@
 //! abort to the case and confirms it alone).
 
 use std::alloc::{GlobalAlloc, Layout, System};
-use std::sync::atomic::{AtomicBool, AtomicUsize, Ordering};
+use std::sync::atomic::{AtomicBool, AtomicIsize, AtomicUsize, Ordering};
 
 pub struct Counting;
 
-static LIVE: AtomicUsize = AtomicUsize::new(0);
-static PEAK: AtomicUsize = AtomicUsize::new(0);
+static LIVE: AtomicIsize = AtomicIsize::new(0);
+static PEAK: AtomicIsize = AtomicIsize::new(0);
 static BUDGET: AtomicUsize = AtomicUsize::new(usize::MAX);
 static ARMED: AtomicBool = AtomicBool::new(false);
 pub static REFUSED_SIZE: AtomicUsize = AtomicUsize::new(0);
 static MARK_FD: AtomicUsize = AtomicUsize::new(usize::MAX);
 
+// Counting happens only while a case is armed (W2 workers are single-threaded); otherwise every
+// call goes straight to the system allocator, so the multi-threaded W1 batches pay nothing and do
+// not contend on these counters. LIVE is the net number of bytes allocated since `arm` (it may go
+// negative when memory allocated before `arm` is freed inside the case).
 unsafe impl GlobalAlloc for Counting {
     unsafe fn alloc(&self, l: Layout) -> *mut u8 {
-        if ARMED.load(Ordering::Relaxed) {
-            let live = LIVE.load(Ordering::Relaxed);
-            if live.saturating_add(l.size()) > BUDGET.load(Ordering::Relaxed) {
-                refuse(l.size());
-                return std::ptr::null_mut();
-            }
+        if !ARMED.load(Ordering::Relaxed) {
+            return System.alloc(l);
+        }
+        if over(l.size()) {
+            refuse(l.size());
+            return std::ptr::null_mut();
         }
         let p = System.alloc(l);
         if !p.is_null() {
-            let now = LIVE.fetch_add(l.size(), Ordering::Relaxed) + l.size();
-            PEAK.fetch_max(now, Ordering::Relaxed);
+            add(l.size());
         }
         p
     }
     unsafe fn dealloc(&self, p: *mut u8, l: Layout) {
         System.dealloc(p, l);
-        LIVE.fetch_sub(l.size(), Ordering::Relaxed);
+        if ARMED.load(Ordering::Relaxed) {
+            LIVE.fetch_sub(l.size() as isize, Ordering::Relaxed);
+        }
     }
     unsafe fn alloc_zeroed(&self, l: Layout) -> *mut u8 {
-        if ARMED.load(Ordering::Relaxed) {
-            let live = LIVE.load(Ordering::Relaxed);
-            if live.saturating_add(l.size()) > BUDGET.load(Ordering::Relaxed) {
-                refuse(l.size());
-                return std::ptr::null_mut();
-            }
+        if !ARMED.load(Ordering::Relaxed) {
+            return System.alloc_zeroed(l);
+        }
+        if over(l.size()) {
+            refuse(l.size());
+            return std::ptr::null_mut();
         }
         let p = System.alloc_zeroed(l);
         if !p.is_null() {
-            let now = LIVE.fetch_add(l.size(), Ordering::Relaxed) + l.size();
-            PEAK.fetch_max(now, Ordering::Relaxed);
+            add(l.size());
         }
         p
     }
     unsafe fn realloc(&self, p: *mut u8, l: Layout, new: usize) -> *mut u8 {
-        if ARMED.load(Ordering::Relaxed) && new > l.size() {
-            let live = LIVE.load(Ordering::Relaxed);
-            if live.saturating_add(new - l.size()) > BUDGET.load(Ordering::Relaxed) {
-                refuse(new);
-                return std::ptr::null_mut();
-            }
+        if !ARMED.load(Ordering::Relaxed) {
+            return System.realloc(p, l, new);
+        }
+        if new > l.size() && over(new - l.size()) {
+            refuse(new);
+            return std::ptr::null_mut();
         }
         let q = System.realloc(p, l, new);
         if !q.is_null() {
             if new >= l.size() {
-                let now = LIVE.fetch_add(new - l.size(), Ordering::Relaxed) + (new - l.size());
-                PEAK.fetch_max(now, Ordering::Relaxed);
+                add(new - l.size());
             } else {
-                LIVE.fetch_sub(l.size() - new, Ordering::Relaxed);
+                LIVE.fetch_sub((l.size() - new) as isize, Ordering::Relaxed);
             }
         }
         q
     }
+}
+
+fn over(size: usize) -> bool {
+    let live = LIVE.load(Ordering::Relaxed);
+    size > isize::MAX as usize || live.saturating_add(size as isize) > BUDGET.load(Ordering::Relaxed) as isize
+}
+
+fn add(size: usize) {
+    let now = LIVE.fetch_add(size as isize, Ordering::Relaxed) + size as isize;
+    PEAK.fetch_max(now, Ordering::Relaxed);
 }
 
 fn refuse(size: usize) {
@@ -113,23 +126,17 @@ pub fn set_marker_fd(fd: i32) {
     MARK_FD.store(fd as usize, Ordering::SeqCst);
 }
 
-/// Arm the budget: at most `extra` more live bytes than now.
+/// Arm the budget: at most `extra` net bytes may be allocated from now on.
 pub fn arm(extra: usize) {
     REFUSED_SIZE.store(0, Ordering::SeqCst);
-    let live = LIVE.load(Ordering::SeqCst);
-    PEAK.store(live, Ordering::SeqCst);
-    BUDGET.store(live.saturating_add(extra), Ordering::SeqCst);
+    LIVE.store(0, Ordering::SeqCst);
+    PEAK.store(0, Ordering::SeqCst);
+    BUDGET.store(extra.min(isize::MAX as usize), Ordering::SeqCst);
     ARMED.store(true, Ordering::SeqCst);
 }
 
-/// Disarm; returns the peak number of bytes allocated above the level at `arm` time.
+/// Disarm; returns the peak net number of bytes allocated while armed.
 pub fn disarm() -> usize {
     ARMED.store(false, Ordering::SeqCst);
-    let b = BUDGET.swap(usize::MAX, Ordering::SeqCst);
-    let _ = b;
-    PEAK.load(Ordering::SeqCst)
-}
-
-pub fn live() -> usize {
-    LIVE.load(Ordering::SeqCst)
+    PEAK.load(Ordering::SeqCst).max(0) as usize
 }
